@@ -3,7 +3,7 @@
 TABLE = [
     ('C17',
      'explicit-state bounded-exhaustive enumeration of the real tiling functions (all regions x bin sizes x fragment sizes x blacklists up to the bound), partition/containment oracle with bitsets',
-     'Every region [a,b) within 0..R, every bin size 1..R+2, fragment size in {None,0,1,2,R} and every blacklist of <=2 '
+     'Every region [a,b) within 0..R, every bin size 1..R+2, fragment size in {None,0,1,2,R} and every blacklist of <=2 (both orders) '
      '(thorough: <=3 for R=7) intervals with endpoints in -1..R+1 is run through the real blacklisted_binning; '
      'fill_range, trim_rangelist, merge_overlapping_ranges, bp_chunked and blacklisted_binning_contigs are exhausted on their own '
      'small spaces. The oracle is the property statement itself. Quick R=8 (2.8M cases), thorough R=12.',
@@ -13,12 +13,12 @@ TABLE = [
      'bounded-exhaustive enumeration of whitelists x expansion k x ALL query strings through the real BarcodeParser, brute-force nearest-neighbour oracle',
      'Every whitelist of <=3 barcodes of length 3 (thorough: also <=2 of length 4, 1 of length 5) over ACGTN, every k in 0..2 and every '
      'query string of that length go through addBarcode/expand/getIndexCorrectedBarcodeAndHammingDistance; every file layout x gz x '
-     'eager/lazy loading x accessor used before the first lookup (parser[alias], another alias, getTargetCount), with a twin alias holding the same barcodes under other indices in the same parser; one parser holding the whole shipped indices/ directory; shipped whitelists against all 5^L queries (quick: 6-nt index list and the 8-nt DamID2 list; thorough: all '
+     'eager/lazy loading x accessor used before the first lookup (parser[alias], another alias, getTargetCount), with a twin alias holding the same barcodes under other indices in the same parser; one parser holding the whole shipped indices/ directory; shipped whitelists against all 5^L queries (quick: 6-nt index list and the 8-nt DamID2 list, and one process holding a barcodes/ parser followed by an indices/ parser; thorough: all '
      'shipped lists <=8 nt and the 10-nt DamID2 list).',
      'Whitelists are sets of equal-length ACGTN strings; geometry needing >3 barcodes is only covered through the shipped lists.'),
     ('C09',
      'bounded-exhaustive enumeration of fragment geometries on a known reference, each also as its mirror image on the reverse-complemented reference; simulator-truth + mirror-relation oracle on the real NlaIIIFragment / CHICFragment',
-     'Full product of strand x single/paired x soft clip 0..6 x motif variant (exact, all 16 single-base substitutions incl. N, '
+     'Sites in the middle of the contig and on coordinate 0 (mirror: the last bases); full product of strand x single/paired x soft clip 0..6 x motif variant (exact, all 16 single-base substitutions incl. N, '
      'one-cycle shift, motif on the wrong end, two decoys) x allow_cycle_shift x check_motif x invert_strand x no_umi_cigar_processing '
      '(NlaIII) and trimmed/untrimmed x clip x R2 arrangement x invert_strand (CHIC): 3008 geometries, each executed on both strands. '
      'DS/RS/RZ/qcfail are compared with the simulated cut and with the mirrored twin.',
@@ -36,7 +36,7 @@ TABLE = [
      'bounded-exhaustive enumeration of coordinate x bin size x sliding increment on both copies of the bin arithmetic, on assignReads, and on count tables produced by the real create_count_table from synthesised BAMs; set-definition oracle',
      'Every point 0..N, bin 1..B, increment 1..bin (quick N=120,B=24; thorough N=600,B=60) on both copies of coordinate_to_bins / '
      'coordinate_to_sliding_bin_locations; assignReads for every coordinate 0..L+2 x (b,s) x keepOverBounds x bin tag x weight; full count '
-     'tables (768 quick / 6720 thorough) from BAMs holding a read on every coordinate, every cell compared with the defining window set.',
+     'tables (768 quick / 6720 thorough) from BAMs holding a read on every coordinate, every cell compared with the defining window set; two alignment files whose headers give a contig different lengths, in both orders.',
      'Small contigs (tens of bases); weights limited to single reads and mate halves.'),
     ('C11',
      'bounded-exhaustive enumeration of option sets x reads (all reads within 2 attribute changes of a plain read) on read_should_be_counted/assignReads and on create_count_table; independent recomputation oracle from the property text and CLI help',
@@ -62,7 +62,7 @@ TABLE = [
     ('C19',
      'fault enumeration / deviation-bounded exploration of the real HandleLimiter and FastqHandle over an in-memory file store with a descriptor budget: every write word x limiter setting x fault plan (EMFILE budgets, every placement of <=2 transient open failures, permanent path failure)',
      'All write sequences (up to path renaming) of length <=7 (thorough <=9, and 4 paths <=7) over 3 paths x maxHandles 1..4 x pruneEvery '
-     '{1,2,3,4,10000} x gzip/plain x fault plans: none, EMFILE (and ENFILE) when >=k descriptors are open (k=1..3), every single failing open() call as EMFILE and as ENFILE, every pair of failing calls '
+     '{1,2,3,4,10000} x gzip/plain x fault plans: none, EMFILE (and ENFILE) when >=k descriptors are open (k=1..3), every single failing open() call as EMFILE and as ENFILE, every pair of failing calls, and the same with stale files of an earlier run at the paths or after an earlier writer object of the same process '
      '(placements discovered from the execution, deviation bound 2), one permanently failing path; plus FastqHandle(single_cell=True) words and a '
      '200-path sweep. Oracle: per-path log of acknowledged payloads vs gunzipped content of every file; a raise is legitimate only if the '
      'failing open happened with no other descriptor open.',
@@ -73,7 +73,7 @@ TABLE = [
      '1-mismatch, unknown, truncated, short, empty, N, composite-branch classes, 8 header shapes) plus the word with every class and every class repeated 40 times, x '
      'paired/single end x rejects on/off x joint/per-cell x Hamming expansion x maxReadPairs (quick: default configuration and all at '
      'distance 1; thorough: full product), a phred sweep (thorough: all 0..93) and a 7000-pair per-cell word that drives the handle limiter '
-     'through prune and re-open. Outputs are parsed strictly and accounted per input id.',
+     'through prune and re-open, and demux.py itself run as a script on a chunked lane (file arguments sorted/shuffled, list files, try-out run followed by the full run into the same per-cell output). Outputs are parsed strictly and accounted per input id.',
      'Without a reject handle only the demultiplexed side and the counters are compared; one strategy per run; '
      'CHROMC16U12 rejects everything (emptied whitelist).'),
     ('C13',
@@ -86,7 +86,7 @@ TABLE = [
     ('C15',
      'bounded-exhaustive enumeration of coverage shapes (multisets of <=3 fragment letters: mate gap x mismatch class x read length, both strands, Nla/CHIC/plain classes) through deduplicate_majority, write_pysam(consensus=True), run_tagging_task and the real --consensus --multiprocess command line; well-formedness oracle',
      'All multisets of <=3 fragment letters (single end, overlapping, adjacent, small gap, gap beyond max_N_span; clean / R1 mismatch at q30 '
-     'or q10 / R2 mismatch / R1 with a one-base insertion; two read lengths) x strand x molecule class x max_N_span None/5 x with/without source reads, and molecules with a fragment cap below the number of fragments offered (TF). Oracle: aligned '
+     'or q10 / R2 mismatch / R1 with a one-base insertion; two read lengths) x strand x molecule class x max_N_span None/5 x with/without source reads, molecules with a fragment cap below the number of fragments offered (TF), a consensus requested before the molecule is complete, and phred 50/60 conflicts. Oracle: aligned '
      'blocks == union of read coverage, len(seq)==len(qual)==CIGAR query length, MD rebuilt against the true reference, unanimous => that '
      'base, symmetric evidence => N, dominating evidence => that base, SM/RX/DS/TF/TR tags equal the molecule\'s.',
      'Reads with N bases and CHIC molecules with assignment radius >0 are not generated; "no record skips more than max_N_span" is taken from the parameter name.'),
@@ -94,7 +94,7 @@ TABLE = [
      'schedule enumeration: every check_eject_every in {None,0..n} x pooling method x cache size x fragment class for every coordinate-ordered multiset-word of fragment letters, on the real MoleculeIterator; differential oracle against the never-eject run',
      'All multisets of <=5 (thorough <=6) fragments over 12 letters (5 sites placed around the half-cache margin, short and long fragments, '
      'two cells, two UMIs, a reverse-strand fragment, a second contig), delivered in coordinate order with every order among ties, x every '
-     'ejection interval None,0..n x pooling 0/1 x cache 100/1000 x NlaIII / CHIC radius 0 / CHIC radius 15; the same for the plain Fragment/Molecule classes over 10 single-end letters that share starts or ends (molecules that grow at their end). Oracle: partition equals the '
+     'ejection interval None,0..n x pooling 0/1 x cache 100/1000 x NlaIII / CHIC radius 0 / CHIC radius 15; the same for the plain Fragment/Molecule classes over 17 letters (single-end reads sharing starts or ends, a same-strand pair, a second contig, a fragment that fits two molecules) and re-iteration of an iterator object after an abandoned iteration. Oracle: partition equals the '
      'never-eject partition, every fragment emitted exactly once, pooling methods agree for exact UMIs on site-exact classes. '
      'Non-prefix ejections are counted as the non-trivial cases.',
      'Fragments span < half the cache size; UMIs compared exactly; input order = order in which a sorted BAM reader completes the pairs.'),
@@ -102,7 +102,7 @@ TABLE = [
      'explicit-state search over histories of resolver runs sharing one cache directory (state = exact cache directory content), every run configuration x contig access sequence from every reached state; differential oracle (eager cache-free resolver) + independent VCF-text reader',
      'Runs = mode (eager/lazy/cache/cache+eager) x select_samples x ignore_conversions x phased x first operation x contig access sequence '
      'over {c1,c2,c3_random,absent}; sample selections None / {S1,S2} / {S1} / {S1,S3} with 70-character sample names of which two share a 57-character prefix; from every cache state reached (quick depth 2, 37 states; thorough depth 3, 477 '
-     'states) all runs are executed and at every access all (position, base) lookups and has_location answers are compared; plus 288 '
+     'states) all runs are executed (the read-level getAllele() is called before the lookups in half of them) and at every access all (position, base) lookups and has_location answers are compared; plus 288 '
      'Molecule.allele conformance cases.',
      'phased=False, missing genotypes and multi-base sites are only covered by the all-modes-agree comparison; region_start/region_end, prefetch and uglyMode are not generated.'),
     ('C06',
@@ -128,7 +128,7 @@ TABLE = [
      'nla/chic/qflag; --no_rejects on/off; single vs --multiprocess under ScheduledPool with every completion order (<=24/120) for nla, '
      'identity+reverse otherwise. Oracle: multiset of (name, mate, seq, qual, pos, CIGAR) equals the input primaries, coordinate sorted, usable '
      '.bai, every record carries an RG declared in the header, --no_rejects removes exactly the invalid fragments; free-running real-Pool '
-     'conformance runs; one 10 500-fragment input per mode so that the buffer-ejection branch runs inside the tagger.',
+     'conformance runs; one 10 500-fragment input per mode so that the buffer-ejection branch runs inside the tagger; within a shard every layout replaces the BAM at the same input path.',
      'No secondary/supplementary alignments; reads are pre-tagged; samtools absent so the pysam merge/sort paths run; worker count is '
      'observable only through the completion order.'),
     ('C12',
@@ -137,10 +137,10 @@ TABLE = [
      'max_fragment_size, both strands, allele key tags, and every kind of record that must not be counted (duplicate, qc-fail, read 2, MAPQ below '
      'threshold, mp not unique); bin {50,100,250} x bins-per-job 1..N x max_fragment_size {20,100,1000} x key_tags {None,[DA]} x every '
      'completion order for <=5 (thorough <=6) jobs, orders within 2 (3) adjacent swaps + reversal for more; default-option calls; '
-     'get_binned_counts x n_threads x orders; free-running real-Pool conformance runs in a subprocess.',
+     'get_binned_counts x n_threads x orders; free-running real-Pool conformance runs in a subprocess; the BAM replaced at the same path between runs of one process; two libraries with disjoint cells in one call under every near-identity completion order.',
      '|DS - read span| <= max_fragment_size; sites outside the contig only judged for invariance; several BAMs sharing cells (dict.update merge) is outside the property.'),
     ('C20',
-     'crash-point / fault enumeration: every injection point discovered by an instrumented fault-free run x {exception, kill} x {single, --multiprocess} x {nla, chic}, each execution in a forked child (kill = os._exit at the point); status-vs-output oracle',
+     'crash-point / fault enumeration: every injection point discovered by an instrumented fault-free run x {exception, kill, KeyboardInterrupt} x {single, --multiprocess} x {nla, chic}, each execution in a forked child (kill = os._exit at the point); status-vs-output oracle',
      'Both on a fresh output path and as a re-run over the finished output of an earlier successful run (stale status file). Points: input verification, arguments that fail in set-up, before/after every molecule write, before/after the read-group header rewrite (per job in multiprocess mode), before/inside/after every sort '
      '(inside = half-written output), before/after every index, every pool job, before/inside/after merge, temp-folder cleanup. Quick: every single fault; '
      'thorough: also every pair of consecutive points and all three sort retries failing. Oracle: the status file never says success unless the run '
@@ -151,7 +151,7 @@ TABLE = [
      'schedule + tiling enumeration: one serial run vs every (bin size, fetch margin, job size, pool on/off) tiling of the region API and vs --multiprocess, each under every completion order of the jobs (scheduler-owned Pool), on the real command-line entry point; record-multiset equality oracle',
      'A tiny genome (3 contigs; for the contig-per-process comparison also three 45-60 kb contigs and a large one) holding a molecule on, one before and one after every bin boundary that any tiling of the alphabet produces and on the first/last bases of every contig (taken from '
      'the real tiling function), both strands, 1-3 duplicates, two cells, rejects, half-mapped and unmapped pairs; bin sizes {250,700,1000,>contig} '
-     '(thorough adds 500), fetch margins {60=longest fragment, 1000} (thorough adds 100), job sizes {b,3b,inf}, with and without a pool, plus a 20-base one-bin-per-job tiling of a dense input (> 100 result files); every '
+     '(thorough adds 500), fetch margins {60=longest fragment, 1000} (thorough adds 100), job sizes {b,3b,inf}, with and without a pool, plus a 20-base one-bin-per-job tiling of a dense input (> 100 result files), -max_fragment_size below the fragment lengths, and a history of -contig restricted and unrestricted tiled runs in one process; every '
      'completion order for <=4 (5) jobs, orders within 2 (3) adjacent swaps + reversal for more; methods nla and chic. Oracle: multiset of (name, mate, '
      'flag, position, CIGAR, sequence, all tags except mi/ix) equals the serial run.',
      'Fetch margin >= longest fragment; no blacklist; per-run identifiers and order among equal coordinates not compared.'),
